@@ -87,7 +87,7 @@ _MEMO_DICTS: list[tuple[str, str, dict[Any, Any]]] | None = None
 
 def discover_memo_dicts() -> list[tuple[str, str, dict[Any, Any]]]:
     """Hand-rolled memos: module-level dicts of btclib that are EMPTY once everything is imported and
-    that calls fill later (today: ecc.ellswift._CONSTANTS). Clearing one between runs is a cold start;
+    that calls fill later (today: ecc.ellswift._CONSTANTS; any private name, either case). Clearing one between runs is a cold start;
     they are never cleared while simulated threads run (a check-then-act on a memo that only grows is
     safe, and a concurrent clear would break code that holds)."""
     global _MEMO_DICTS  # noqa: PLW0603
@@ -101,7 +101,7 @@ def discover_memo_dicts() -> list[tuple[str, str, dict[Any, Any]]]:
         mod = sys.modules[modname]
         for name in sorted(vars(mod)):
             obj = vars(mod)[name]
-            if type(obj) is dict and not obj and name.startswith("_") and name.isupper():
+            if type(obj) is dict and not obj and name.startswith("_") and not name.startswith("__"):
                 found.append((modname, name, obj))
     _MEMO_DICTS = found
     return found
